@@ -20,6 +20,7 @@ def run(chk):
     r08b(chk)
     r08c(chk)
     r08d(chk)
+    r08e(chk)
 
 
 def r08a(chk, rid='R08.a'):
@@ -252,3 +253,57 @@ def r08d(chk, rid='R08.d'):
                 want = [('insertRule', enc, 0)] if enc else []
                 got = log
             chk.ob(rid, SHEET, 'CSSStyleSheet._setEncoding', f'first rule {first}, encoding={enc!r}: only the @charset setter, deleteRule(0) or insertRule(@charset, 0) (by evaluation)', got == want and not isinstance(res, Raised), f'{got!r}, prescribed {want!r}')
+
+
+def r08e(chk, rid='R08.e'):
+    chk.rule(rid, 'an @import added as text is resolved in the encoding context of the sheet, decided by evaluation: CSSStyleSheet.insertRule is evaluated on its syntax tree up to the point where it hands the text to its temporary sheet (a model that records what it is given), for a sheet that starts with an @charset rule and rule texts that hold an @import in every spelling CSS allows - lower case, upper case, with an escape, behind white space, a line break or a comment: the temporary sheet is given the @charset rule of the sheet in front of the text, and the namespaces of the sheet; a text that is itself an @charset rule is given alone')
+    chk.assume('R08.e: the temporary sheet is a model that records the text it is asked to parse; the evaluation stops there')
+    from sa.absint import Evaluator, Obj, Raised, Record
+
+    m = chk.repo.mod(SHEET)
+    fn = m.get('CSSStyleSheet.insertRule')
+
+    class Stop(Exception):
+        pass
+
+    class L(list):
+        @property
+        def length(self):
+            return len(self)
+
+    charset = Obj(type=1, CHARSET_RULE=1, cssText='@charset "iso-8859-1";', encoding='iso-8859-1', wellformed=True)
+    texts = ['@import "x.css";', '@IMPORT "x.css";', '@im\\port "x.css";', ' @import "x.css";', '\n@import url(x.css);', '/*c*/@import "x.css";', '@import"x.css";']
+    n = 0
+    for rule_text in texts + ['@charset "utf-8";']:
+        given = []
+
+        class Temp(Obj):
+            def __init__(self, **k):
+                Obj.__init__(self, args=k, _ownerNode=None, _fetcher=None)
+
+            @property
+            def cssText(self):
+                return None
+
+            @cssText.setter
+            def cssText(self, v):
+                given.append(v)
+                raise Stop()
+
+        me = Obj(_checkReadonly=lambda: None, _cssRules=L([charset]), href='h', media='m', title='t', parentStyleSheet=None, ownerRule=None, ownerNode=None, _fetcher='F', _namespaces='NS',
+                 _log=Record(error=lambda *a, **k: None))
+        try:
+            res = Evaluator(fn, intrinsics={'CSSStyleSheet': Temp, 'self._log.error': me._log.error}, module=m, cls='CSSStyleSheet', model_types=(L,)).run(self=me, rule=rule_text, index=None)
+        except Stop:
+            res = None
+        if isinstance(res, Raised) or len(given) != 1:
+            raise AnalysisError(f'CSSStyleSheet.insertRule: the text branch did not reach its temporary sheet ({res!r}, {given})')
+        v = given[0]
+        txt, ns = (v if isinstance(v, tuple) else (v, None))
+        n += 1
+        if rule_text.startswith('@charset'):
+            chk.ob(rid, SHEET, 'CSSStyleSheet.insertRule', 'a new @charset rule is parsed alone', txt == rule_text, f'the temporary sheet is given {txt!r}')
+        else:
+            chk.ob(rid, SHEET, 'CSSStyleSheet.insertRule', f'{rule_text!r}: the import is parsed behind the @charset rule of the sheet, with its namespaces', txt == charset.cssText + rule_text and ns == 'NS',
+                   f'the temporary sheet is given {txt!r} (namespaces {ns!r}): the imported sheet is decoded as if the referring sheet had no encoding - utf-8 instead of the encoding of the sheet it is imported into')
+    chk.extra['import_text_cases'] = n
